@@ -17,22 +17,26 @@ DESIGN_REF = "§5 C01"
 TECHNIQUE = ("Coq proof: table-index lookup / hasMany / findOffsets / get over every prefix-sorted index (equal 8-byte prefixes inside the "
              "statements), tableSet search over any source order; regenerated format constants and offset functions; executable byte-level "
              "table + store model compared inside Coq with real NomsBlockStore histories (colliding prefixes), map oracle on every observation")
-LEVEL_TEXT = ("Proof (F/M for the table index and tableSet search, P for the store state machine): for every record list (equal 8-byte prefixes "
-              "allowed) and every prefix-sorted outcome of the unstable index sort, lookup in the index written for it returns exactly the record's "
-              "(offset,length) or nothing; hasMany/findOffsets mark exactly the present requests and `remaining` is exact (carried filterIdx and "
-              "early exit included); tableReader.get through the written bytes returns the stored bytes (CRC checked) iff the address is stored; "
-              "tableSet.hasMany over any order of sources accumulates flags correctly and only reports remaining=false when everything is found. "
-              "PARTIAL: the byte-level decode of the index block (parse_index o write_table = build_pindex) and the refinement of the whole store "
-              "state machine (memtable, flush with has-filter, generations) to the abstract map are not proved; they rest on the correspondence: "
-              "the executable store model (which runs write_table/parse_index/lookup/has_many byte-for-byte) is compared with real NomsBlockStore "
-              "histories and the map oracle is evaluated on every implementation observation.")
-LEVEL_NOTE = ("Trusted: Coq kernel, translator (constants, indexSize/lengthsOffset/suffixesOffset), Go harness + Python glue. Parameters of the "
-              "theorems: checksum function (any), compressor with decompress(compress d)=d, content addressing (an address determines the bytes). "
-              "Modelled, not verified: Go maps for novel/upstream sources (any order: theorems quantify over the lists), sort.Sort instability "
-              "(any prefix-sorted permutation), read batching / mmap / quota, journal and archive sources inside a store (archive index search is "
-              "C06's prolly_bin_search_spec), GC keeper callbacks, concurrent access.")
-THEOREMS = ["lookup_write_index", "lookup_any", "has_many_spec", "find_offsets_spec", "table_get_written", "table_has_written",
-            "tableset_has_many_spec", "sort_tuples_valid", "layout_pinned"]
+LEVEL_TEXT = ("Proof (F/M): (1) for every record list (equal 8-byte prefixes allowed) and every prefix-sorted outcome of the unstable index sort, the "
+              "written bytes parse back to the index (parse_write_table, byte level: footer, the three index regions, uint32/uint64 bounds in the "
+              "statement), lookup returns exactly the record's (offset,length) or nothing, hasMany/findOffsets mark exactly the present requests with "
+              "exact `remaining` (carried filterIdx, early exit), get returns the stored bytes (CRC checked) iff stored, iterateAllChunks returns "
+              "exactly the stored chunks; (2) store_refines_map: for EVERY operation history (content-addressed puts, batched reads over sets) in "
+              "every configuration (single store; old/new generations incl. nil ghost store as fixed) and every memtable size, every Get / Has / "
+              "GetMany / GetManyCompressed / HasMany / IterateAllChunks answer of the store state machine (memtable, auto-flush when full, flush "
+              "with has-filter against novel+upstream, novel then upstream in any order, old then new generation) equals the abstract map of "
+              "accepted puts, which changes only by accepted puts; corollary reads_agree. The executable model is tied to the code by running "
+              "real NomsBlockStore histories and comparing inside Coq; the map oracle is also evaluated on every implementation observation.")
+LEVEL_NOTE = ("Trusted: Coq kernel, translator (constants, indexSize/lengthsOffset/suffixesOffset), Go harness + Python glue. Hypotheses visible in "
+              "the theorems: content addressing (an address determines the bytes), addresses are 8+12 bytes, memsz + 4 < 2^32 (record lengths fit "
+              "uint32), checksum < 2^32, decompress(compress d) = d, compress of non-empty is non-empty; the table/tableSet/store lemmas are generic in "
+              "crc/compress/decompress, the final induction over histories is for the instance the correspondence runs (identity compressor, constant "
+              "checksum). Modelled, not verified: Go maps for novel/upstream sources (lists, any order), sort.Sort instability (any prefix-sorted "
+              "permutation), read batching (batches_cover not proved) / mmap / quota, journal and archive sources inside a store (archive index search "
+              "is C06's prolly_bin_search_spec), GC keeper callbacks, concurrency.")
+THEOREMS = ["store_refines_map", "reads_agree", "parse_write_table", "lookup_parsed_written_table", "lookup_write_index", "lookup_any",
+            "has_many_spec", "find_offsets_spec", "table_get_written", "table_has_written", "tableset_has_many_spec", "tbl_iterate",
+            "store_put_spec", "store_flush_spec", "sort_tuples_valid", "layout_pinned"]
 RULE = ("histories of 8-45 operations over address pools built to collide (2-5 prefix groups of 1-5 addresses sharing all 8 prefix bytes, adjacent "
         "prefixes +-1, absent probes inside present prefix runs, suffixes differing in one byte), memtable sizes from 8 bytes (flush on almost every "
         "put) to 1 MiB, three configurations; non-trivial = at least one put accepted and one read; distinct by full history")
